@@ -44,24 +44,55 @@ pub trait DynEnv {
     fn order_status(&self, id: (usize, usize)) -> St;
 }
 
-fn series_of<const L: usize>(
-    prices: &(Vec<u32>, Vec<u32>),
-    volumes: &(Vec<u32>, Vec<u32>),
-    tv: (&Vec<u32>, &Vec<u32>),
-    tc: (&Vec<u32>, &Vec<u32>),
-    rec: &bourse_de::Level2DataRecords<L>,
-    trade_vols: &Vec<u32>,
-) -> Series {
+/// Conversions that tolerate source-compatible changes of the environment's getters and of the public record
+/// fields (another integer width, owned instead of borrowed vectors): a value that does not fit u32 becomes
+/// u32::MAX, which no recorded quantity of a valid history equals.
+pub trait ToU32s {
+    fn to_u32s(&self) -> Vec<u32>;
+}
+impl<T: Copy + TryInto<u32>> ToU32s for Vec<T> {
+    fn to_u32s(&self) -> Vec<u32> {
+        self.iter().map(|x| (*x).try_into().unwrap_or(u32::MAX)).collect()
+    }
+}
+impl<T: Copy + TryInto<u32>> ToU32s for [T] {
+    fn to_u32s(&self) -> Vec<u32> {
+        self.iter().map(|x| (*x).try_into().unwrap_or(u32::MAX)).collect()
+    }
+}
+impl<X: ToU32s + ?Sized> ToU32s for &X {
+    fn to_u32s(&self) -> Vec<u32> {
+        (**self).to_u32s()
+    }
+}
+pub trait ToU32Pair {
+    fn to_pair(&self) -> (Vec<u32>, Vec<u32>);
+}
+impl<A: ToU32s, B: ToU32s> ToU32Pair for (A, B) {
+    fn to_pair(&self) -> (Vec<u32>, Vec<u32>) {
+        (self.0.to_u32s(), self.1.to_u32s())
+    }
+}
+impl<P: ToU32Pair> ToU32Pair for &P {
+    fn to_pair(&self) -> (Vec<u32>, Vec<u32>) {
+        (**self).to_pair()
+    }
+}
+fn per_level<V: ToU32s>(levels: &[V]) -> Vec<Vec<u32>> {
+    levels.iter().map(|v| v.to_u32s()).collect()
+}
+
+fn series_of<const L: usize>(prices: impl ToU32Pair, volumes: impl ToU32Pair, tv: impl ToU32Pair, tc: impl ToU32Pair, rec: &bourse_de::Level2DataRecords<L>, trade_vols: impl ToU32s) -> Series {
     Series {
-        prices: prices.clone(),
-        volumes: volumes.clone(),
-        touch_volumes: (tv.0.clone(), tv.1.clone()),
-        touch_counts: (tc.0.clone(), tc.1.clone()),
-        level_bid_vols: rec.volumes_at_levels.0.iter().cloned().collect(),
-        level_bid_counts: rec.orders_at_levels.0.iter().cloned().collect(),
-        level_ask_vols: rec.volumes_at_levels.1.iter().cloned().collect(),
-        level_ask_counts: rec.orders_at_levels.1.iter().cloned().collect(),
-        trade_vols: trade_vols.clone(),
+        prices: prices.to_pair(),
+        volumes: volumes.to_pair(),
+        touch_volumes: tv.to_pair(),
+        touch_counts: tc.to_pair(),
+        level_bid_vols: per_level(&rec.volumes_at_levels.0),
+        level_bid_counts: per_level(&rec.orders_at_levels.0),
+        level_ask_vols: per_level(&rec.volumes_at_levels.1),
+        level_ask_counts: per_level(&rec.orders_at_levels.1),
+        trade_vols: trade_vols.to_u32s(),
     }
 }
 
